@@ -164,21 +164,21 @@ func generatedFamilies() []family {
 		convFamily("cblas128", "complex128", true),
 		convFamily("cblas64", "complex64", true),
 		{
-			name:  "conv-blas32-symmetric",
-			pairs: [][2]string{{"blas/blas64/conv_symmetric.go", "blas/blas32/conv_symmetric.go"}},
-			idents: map[string]string{"float64": "float32"},
+			name:    "conv-blas32-symmetric",
+			pairs:   [][2]string{{"blas/blas64/conv_symmetric.go", "blas/blas32/conv_symmetric.go"}},
+			idents:  map[string]string{"float64": "float32"},
 			identFn: sedIdent([2]string{"blas64", "blas32"}), litFn: sedIdent([2]string{"blas64", "blas32"}),
 		},
 		{
-			name:  "conv-cblas128-symmetric",
-			pairs: [][2]string{{"blas/blas64/conv_symmetric.go", "blas/cblas128/conv_symmetric.go"}},
-			idents: map[string]string{"float64": "complex128"},
+			name:    "conv-cblas128-symmetric",
+			pairs:   [][2]string{{"blas/blas64/conv_symmetric.go", "blas/cblas128/conv_symmetric.go"}},
+			idents:  map[string]string{"float64": "complex128"},
 			identFn: sedIdent([2]string{"blas64", "cblas128"}), litFn: sedIdent([2]string{"blas64", "cblas128"}),
 		},
 		{
-			name:  "hll64",
-			pairs: [][2]string{{"stat/card/hll32.go", "stat/card/hll64.go"}},
-			idents: map[string]string{"uint32": "uint64", "LeadingZeros32": "LeadingZeros64", "Sum32": "Sum64"},
+			name:    "hll64",
+			pairs:   [][2]string{{"stat/card/hll32.go", "stat/card/hll64.go"}},
+			idents:  map[string]string{"uint32": "uint64", "LeadingZeros32": "LeadingZeros64", "Sum32": "Sum64"},
 			identFn: sedIdent([2]string{"HyperLogLog32", "HyperLogLog64"}, [2]string{"Hash32", "Hash64"}, [2]string{"hash32", "hash64"}, [2]string{"rho32", "rho64"}, [2]string{"w32", "w64"}),
 			litFn:   sedIdent([2]string{"HyperLogLog32", "HyperLogLog64"}, [2]string{"[4, 32]", "[4, 64]"}, [2]string{"Hash32", "Hash64"}, [2]string{"hash32", "hash64"}, [2]string{"w32", "w64"}),
 		},
